@@ -34,7 +34,9 @@ var hiddenMsgs = []byte{0x08, 0x09}
 
 func fromClient(mt byte) bool { return mt == 0x01 || mt == 0x03 || mt == 0x05 || mt == 0x08 }
 
-func sameAddr(a, b *net.UDPAddr) bool { return a != nil && b != nil && a.Port == b.Port && a.IP.Equal(b.IP) }
+func sameAddr(a, b *net.UDPAddr) bool {
+	return a != nil && b != nil && a.Port == b.Port && a.IP.Equal(b.IP)
+}
 
 func keyHash(k [transport.KeyLen]byte) string {
 	h := sha256.Sum256(k[:])
@@ -585,4 +587,3 @@ func genC02(r *vh.Runner) {
 	}
 	r.Case("enumeration-complete", lens, func(c *vh.Case) { r.Count("exhaustive_spaces_completed", 1) })
 }
-
